@@ -8,6 +8,68 @@ TRANSLATOR = "verif-extract (go/ast + go/types translator /repo -> Cql/Gen/*.lea
 HARNESS = "verif-harness correspondence run (differential, sampled; never a substitute for a theorem)"
 
 PROPS = {
+    "C15": {
+        "lean_targets": ["Cql.Props.C15"],
+        "harness_timeout": 5400,
+        "trusted_base": COMMON_TRUST + [TRANSLATOR + " (constants, version predicates incl. SupportsModernFramingLayout, Startup accessors)", HARNESS,
+            "Cql/Conn.lean: hand-written model of the framing logic of client/client.go and client/server.go (layout switch, self-contained "
+            "segment loop, multi-segment accumulator, writeSegment), on top of the frame and segment codec models; compared with the real server "
+            "connection on the segment sequences a raw peer sends",
+            "TCP, goroutines and scheduling are outside the theorems: the end-to-end clauses are OBSERVED between the library's client and "
+            "server and against an independent raw TCP peer (own segment framing written from the specification)"],
+        "assumptions": [
+            "frames are version-valid (C01's ValidFrame); a fatal ERROR frame makes the client close the connection by design and is excluded",
+            "outgoing envelopes fit one segment: the library never splits an envelope it sends (larger ones make the connection fail; "
+            "C15_oversized_envelope_aborts) — the property quantifies large sizes on receive only",
+            "the payload compressor is lossless on the payload at hand (C08 for LZ4)",
+        ],
+    },
+    "C11": {
+        "lean_targets": ["Cql.Props.C11"],
+        "trusted_base": COMMON_TRUST + [HARNESS,
+            "Cql/Value.lean, Cql/Vint.lean: hand-written model of the byte-level part of datacodec/*.go and primitive/vint.go (write*/read* of every "
+            "scalar type, big.Int arithmetic of the varint codec, collection/map/tuple/UDT recursion incl. v2 vs v3+ lengths and null handling), "
+            "compared with the real codecs on every run (decoded value text and re-encoded bytes)",
+            "Cql/Spec/Value.lean: hand transcription of native_protocol_v5.spec §3 [vint], §5, §6 and the v2 collection format, written arithmetically "
+            "(minimal two's complement by magnitude, vints by leading-ones count), independent of the code-shaped model",
+            "the Go-representation layer (reflection, type switches, strings, time.Time, big.Float) is outside the model: it is exercised by the "
+            "harness over the doc.go table of accepted types, not proved (integer conversions: see C13)"],
+        "assumptions": [
+            "HasType: the value is well typed and representable (integer ranges, 16-byte uuids, 4/16-byte addresses, int32 scale, int32/int32/int64 "
+            "duration parts, sizes within the format's limits); IPv4-mapped IPv6 addresses and tuple/UDT types without fields are excluded "
+            "(see the known findings / DESIGN.md)",
+            "round trip through the same Go representation is judged by the harness on the canonical rendering of the value",
+        ],
+    },
+    "C12": {
+        "lean_targets": ["Cql.Props.C12"],
+        "trusted_base": COMMON_TRUST + [HARNESS,
+            "Cql/Value.lean, Cql/Vint.lean: hand-written model of the byte-level part of datacodec/*.go and primitive/vint.go (write*/read* of every "
+            "scalar type, big.Int arithmetic of the varint codec, collection/map/tuple/UDT recursion incl. v2 vs v3+ lengths and null handling), "
+            "compared with the real codecs on every run (decoded value text and re-encoded bytes)",
+            "Cql/Spec/Value.lean: hand transcription of native_protocol_v5.spec §3 [vint], §5, §6 and the v2 collection format, written arithmetically "
+            "(minimal two's complement by magnitude, vints by leading-ones count), independent of the code-shaped model",
+            "the Go-representation layer (reflection, type switches, strings, time.Time, big.Float) is outside the model: it is exercised by the "
+            "harness over the doc.go table of accepted types, not proved (integer conversions: see C13)"],
+        "assumptions": [
+            "as C11; multi-entry maps are compared with the specification entry by entry (Go map iteration order is unspecified)",
+        ],
+    },
+    "C14": {
+        "lean_targets": ["Cql.Props.C14"],
+        "trusted_base": COMMON_TRUST + [HARNESS,
+            "Cql/Value.lean, Cql/Vint.lean: hand-written model of the byte-level part of datacodec/*.go and primitive/vint.go (write*/read* of every "
+            "scalar type, big.Int arithmetic of the varint codec, collection/map/tuple/UDT recursion incl. v2 vs v3+ lengths and null handling), "
+            "compared with the real codecs on every run (decoded value text and re-encoded bytes)",
+            "Cql/Spec/Value.lean: hand transcription of native_protocol_v5.spec §3 [vint], §5, §6 and the v2 collection format, written arithmetically "
+            "(minimal two's complement by magnitude, vints by leading-ones count), independent of the code-shaped model",
+            "the Go-representation layer (reflection, type switches, strings, time.Time, big.Float) is outside the model: it is exercised by the "
+            "harness over the doc.go table of accepted types, not proved (integer conversions: see C13)"],
+        "assumptions": [
+            "as C11; which Go nil-able sources and destinations exist is taken from the doc.go table and exercised by the harness",
+            "an EMPTY non-nil byte string decodes as NULL for every type except ascii/varchar/blob/custom (modelled and proved as coded)",
+        ],
+    },
     "C16": {
         "gens": [],
         "lean_targets": ["Cql.Props.C16"],
@@ -193,7 +255,7 @@ PROPS = {
         ],
     },
     "C03": {
-        "lean_targets": ["Cql.Props.C03"],
+        "lean_targets": ["Cql.Props.C03", "Cql.Props.C03Vint"],
         "trusted_base": COMMON_TRUST + [HARNESS, TRANSLATOR + " (constants, validity and version predicates used by the model)",
             "Cql/Impl/*, Cql/Prim.lean, Cql/DataType.lean: hand-written code-shaped model of primitive/*.go, datatype/*.go, message/*.go, "
             "frame/*.go, tied to the code by the correspondence run (decoded structure, consumed bytes and re-encoded bytes compared on "
@@ -205,7 +267,7 @@ PROPS = {
         ],
     },
     "C04": {
-        "lean_targets": ["Cql.Props.C04"],
+        "lean_targets": ["Cql.Props.C04", "Cql.Props.C04Value"],
         "trusted_base": COMMON_TRUST + [HARNESS, TRANSLATOR + " (constants and predicates used by the model)",
             "Cql/Impl/*, Cql/Prim.lean, Cql/DataType.lean: hand-written code-shaped model in which every Go panic site reachable from wire "
             "data is an explicit third outcome; tied to the code by the correspondence run over mutated inputs (outcome class and bytes "
@@ -233,6 +295,52 @@ PROPS = {
 }
 
 MANIFEST_TEXT = {
+    "C15": {
+        "text": "Lean theorems over a model of the connection framing logic, for every version-valid frame and any trailing bytes: a legacy stream "
+                "of encodings is delivered frame by frame in order (client and server loops); ANY k envelopes packed into one self-contained "
+                "segment are all delivered in order; an envelope split over non-self-contained segments at ANY split points (every part "
+                "non-empty, incl. parts shorter than the envelope header) is reassembled exactly once and the accumulator is left empty; what "
+                "writeSegment sends is one self-contained segment in the specification's layout whose payload is the envelope with the "
+                "COMPRESSED flag clear, and the receiving side delivers exactly that frame; the layout switches exactly after READY/"
+                "AUTHENTICATE of a version with the modern framing and the handshake itself is unframed and unflagged. Partial: TCP and "
+                "goroutines are outside the model; the exchange is observed end to end (library client <-> library server for 6 versions x "
+                "compression x auth; an independent raw TCP peer as client and as server for v5).",
+        "design_ref": "DESIGN.md §5 C15",
+        "note": "Partial (see text). Trusted: Lean kernel; the framing model (correspondence with the real server connection); the raw peer.",
+        "technique": "Lean 4 theorems over a connection-framing model composed from the frame and segment theorems + end-to-end observation with an independent raw peer",
+    },
+    "C11": {
+        "text": "Lean theorem by structural induction over the type tree: for every protocol version (2-byte and 4-byte collection lengths), every "
+                "CQL type — all scalars, custom, and lists, sets, maps, tuples, UDTs nested to ANY depth — and every well-typed value (any integer "
+                "in range, arbitrarily large varints and decimals, any float bit pattern incl. NaNs, any sizes, null elements where the format "
+                "has them), decoding the encoded bytes returns the value; NULL round-trips as NULL. The Go-representation layer (every accepted "
+                "Go type of the doc.go table, pointers, interface{} with the preferred type) is exercised by the harness on boundary values.",
+        "design_ref": "DESIGN.md §5 C11",
+        "note": "Partial for the reflection/conversion layer (harness only). Trusted: Lean kernel; the byte-level model (correspondence run).",
+        "technique": "Lean 4 theorem by mutual structural induction over types and values + differential correspondence over Go representations",
+    },
+    "C12": {
+        "text": "Lean theorems: for every type, version and well-typed value the encoder's bytes ARE the specification's serialization "
+                "(big-endian two's complement of the stated width, varint = the shortest two's-complement string for EVERY integer with a proof "
+                "of minimality, decimal = scale + varint, duration = three zig-zag vints with the exact vint layout for all 2^64 values, date "
+                "offset by 2^31, [int]/[short] counts and lengths by version, null = length -1, tuples/UDTs as successive [bytes]), and the "
+                "decoder reads the specification's bytes back to the value; the NewCodec table agrees with the spec's type table; v2 elements "
+                "too long for a [short] are refused; UDT values with fewer fields than the type decode with nulls. The spec's own example tables "
+                "are kernel-checked; the harness feeds them to the real codecs and compares generated values byte for byte.",
+        "design_ref": "DESIGN.md §5 C12",
+        "note": "Trusted: Lean kernel; hand transcription of spec §3/§5/§6; byte-level model (correspondence run).",
+        "technique": "Lean 4 refinement theorems (code-shaped codec = arithmetic specification) incl. minimality of varints + differential run",
+    },
+    "C14": {
+        "text": "Lean theorems: encoding NULL yields NULL and decoding NULL reports NULL for every type; an empty byte string is NULL for every "
+                "type except the string/blob codecs; a null at ANY element, value or field position of lists, sets, maps, tuples and UDTs "
+                "(any nesting) survives the round trip for versions with 4-byte lengths; for v2, encoding a collection with a null element, key "
+                "or value is never successful, while tuple/UDT fields may be null in every version. The harness covers every accepted nil-able "
+                "Go source and pre-filled destination type.",
+        "design_ref": "DESIGN.md §5 C14",
+        "note": "Partial for the Go-representation layer (harness only). Trusted: as C11.",
+        "technique": "Lean 4 theorems over the value model (null positions by induction over the type tree) + differential correspondence",
+    },
     "C16": {
         "text": "Lean theorems over a timed model of the in-flight request life-cycle, for EVERY history of {send, response page, last page, "
                 "passing of time, handler close}: the channel of a request is closed at most once (no double-close panic) and IsDone holds "
